@@ -33,6 +33,9 @@ def data_of_len(n, kind, rng):
 def build(method, spec, rng):
     """Returns (args, kwargs, expected payload bytes or None, json_obj or None)."""
     cls, n, plane, flag, code = spec['cls'], spec['len'], spec['plane'], spec.get('flag', True), spec.get('code', 0)
+    if spec.get('fixed'):
+        import random
+        rng = random.Random(4242)        # the same content every time: a repeated call can be back-referenced by the compressor
     kwargs = {}
     if cls == 'wrongtype':
         wrong = {"swap": (b'abc' if method == 'send_text' else u'abc'), "none": None, "int": 42, "bytearray": bytearray(b'abc'),
